@@ -80,7 +80,7 @@ class ParMapInitC(_Init):
     cls = 'ParMapDataset'
     methods = {'__init__': [Variant('construct', params={'map_function': 'fn', 'input_dataset': 'ds', 'num_workers': 'int',
                                                          'buffer_size': 'int', 'backend': (lambda e, s: StrV('t'))},
-                                    post=_parmap_init_post, props=('C06', 'C08'))]}
+                                    post=_parmap_init_post, props=('C06', 'C08', 'C04', 'C07'))]}
 
 
 # ---- ApplyDataset
@@ -116,7 +116,7 @@ class BatchMapWrapperC(_Init):
     def fields(self, eng, st):
         return {'map_fn': FnV(smt.fresh('map_fn', smt.Fn))}
     methods = {'__call__': [Variant('batch', params={'batch': (lambda e, s: ListV(smt.fresh('batch', smt.ObjSeq)))},
-                                    post=_bm_call_post, props=('C08',))]}
+                                    post=_bm_call_post, props=('C08', 'C04', 'C01'))]}
 
 
 class BatchMapWrapperInitC(_Init):
